@@ -446,6 +446,16 @@ def K8(A, Bs, f, g):
     return z3.Implies(z3.And(h1, h2), card(A) == card(Bs))
 
 
+def K9(A, Bs, f, g):
+    """pigeonhole: f maps A into B with left inverse g (so f is injective on A) and card A >= card B
+    ==> f is onto B, i.e. every b in B has g(b) in A and f(g(b)) = b    (lemmas/FinCard.lean)"""
+    a = fresh('x', Ref)
+    b = fresh('x', Ref)
+    h1 = z3.ForAll([a], z3.Implies(z3.Select(A, a), z3.And(z3.Select(Bs, f(a)), g(f(a)) == a)))
+    concl = z3.ForAll([b], z3.Implies(z3.Select(Bs, b), z3.And(z3.Select(A, g(b)), f(g(b)) == b)))
+    return z3.Implies(z3.And(h1, card(A) >= card(Bs)), concl)
+
+
 def ext(A, Bs):
     """array extensionality instance: A = B or they differ somewhere"""
     x = fresh('x', Ref)
